@@ -59,6 +59,14 @@ theorem evaluate_maxdiff_bound (ε : α) (S : C01.Setting P c γ) (hw : C01.IdxW
   rw [maxDiff_eq_vnorm P.nS _ V hesl hV, hes, toFn_ofFn] at hconv
   exact eval_maxdiff_values (Tpol P γ (C01.polFn P.nS pl)) γ ε hπ S.hγ0 S.hγ1 (toFn P.nS V) U hU hconv i
 
+/-- closed form: the policy's exact discounted value exists and is unique, and a converged max_diff evaluation is within ε/γ of it -/
+theorem evaluate_maxdiff_bound_closed (ε : α) (S : C01.Setting P c γ) (hw : C01.IdxWF P) (pl : List Nat) (hpl : pl.length = P.nS)
+    (hact : ∀ i, C01.polFn P.nS pl i < P.nA) (V : List α) (hV : V.length = P.nS)
+    (hconv : maxDiff (evalSweep P c γ pl V 0) V < ε * (1 - γ) / γ) :
+    ∃! U, Tpol P γ (C01.polFn P.nS pl) U = U ∧ ∀ i, |toFn P.nS V i - U i| < ε / γ := by
+  obtain ⟨U, hU, huniq⟩ := C01.policy_value_exists_unique P c γ S (C01.polFn P.nS pl) hact
+  exact ⟨U, ⟨hU, fun i => evaluate_maxdiff_bound P c γ ε S hw pl hpl hact V hV hconv U hU i⟩, fun U' hU' => huniq U' hU'.1⟩
+
 theorem nChanged_self (a : List Nat) : nChanged a a = 0 := by
   induction a with
   | nil => rfl
